@@ -11,7 +11,8 @@ MASK = "zMASK"
 
 
 def lab(i):
-    return "t%02d" % i
+    # labels of different widths (numpy picks the array dtype per tree: U3 .. U6), same lexicographic order as the ids
+    return "t%02d" % i + "x" * (i % 4)
 
 
 def adjacency(succ, fmt):
@@ -58,7 +59,7 @@ def prune_params(case, tree):
 def dict_out(d):
     out = []
     for k, v in d.items():
-        out.append([-1 if k == MASK else int(k[1:]), int(v)])
+        out.append([-1 if k == MASK else int(k[1:3]), int(v)])
     return sorted(out)
 
 
